@@ -232,13 +232,18 @@ WriteFloatLayoutWhy(ev, f, o, sc) ==
         sci == sc.hasExp
         epos == SegLo(sc.segs, "echar", 1)
         decimal == Radix(f) = 10 /\ ExponentBase(f) = 10
-        atBreak == lay.se = o.neg \/ lay.se = o.pos
-        wantSci == ~f.no_exponent_notation /\ (f.required_exponent_notation \/ lay.se < o.neg \/ lay.se > o.pos)
+        Want(se) == ~f.no_exponent_notation /\ (f.required_exponent_notation \/ se < o.neg \/ se > o.pos)
+        AtBreak(se) == se = o.neg \/ se = o.pos
+        (* the scientific exponent is that of the float; when rounding to max_significant_digits carried *)
+        (* into a new leading digit (output digits "1") the rounded value's exponent is accepted too     *)
+        carriedMaybe == o.max > 0 /\ lay.n = 1 /\ lay.d[1] = 1
+        notationOk == \/ AtBreak(lay.se) \/ sci = Want(lay.se)
+                      \/ (carriedMaybe /\ (AtBreak(lay.se - 1) \/ sci = Want(lay.se - 1)))
         trimmedInt == o.trim /\ ~sc.hasPoint
     IN  V(~(sci /\ f.no_exponent_notation), "C14", "exponent notation used although the format forbids it")
      \o V(f.required_exponent_notation /\ ~f.no_exponent_notation => sci, "C14", "exponent notation required by the format but not used")
-     \o (IF decimal /\ lay.n > 0 /\ ~f.required_exponent_notation /\ ~f.no_exponent_notation /\ ~atBreak
-         THEN V(sci = wantSci, "C14", IF sci THEN "exponent notation used inside the break points" ELSE "positional notation used outside the break points")
+     \o (IF decimal /\ lay.n > 0 /\ ~f.required_exponent_notation /\ ~f.no_exponent_notation
+         THEN V(notationOk, "C14", IF sci THEN "exponent notation used inside the break points" ELSE "positional notation used outside the break points")
          ELSE << >>)
      \o V(sci => ev.res.out[epos] = o.exp, "C14", "exponent character differs from the configured one")
      \o V(o.max > 0 /\ lay.n > 0 => lay.n <= o.max, "C14", "more significant digits than max_significant_digits")
